@@ -14,7 +14,7 @@ SHARDS = {"quick": 8, "thorough": 16}
 RULE = (
     "fault enumeration: session scripts for 2-3 concurrent connections (handshake, enableBLOB Never/Also/Only, client writes, "
     "device text and BLOB traffic; a fixed catalogue of scripts enumerated exhaustively plus Hypothesis-drawn scripts) x fault kind "
-    "{EOF, read error, EOF inside a message, read error inside a message, junk then EOF, exception while one of its messages is handled "
+    "{EOF, read error, EOF inside a message, read error inside a message, junk then EOF, exception (RuntimeError, StopIteration, KeyError) while one of its messages is handled "
     "by a device - also with more traffic behind it in the same read -, write "
     "error on the peer followed by read error, EOF of two connections in the same loop iteration} x EVERY step index of the script x victim connection x transport of the victim "
     "{TCP handler_func, TTY handle}, on the real connection handlers over fake streams. Oracle after the fault and a settle: the "
